@@ -62,6 +62,27 @@ def exact_case(ctx, rng, g):
     return F, x, w, bias, akind
 
 
+def big_accumulator_case(ctx, rng, g):
+    """exact-arithmetic operands whose un-scaled accumulator is large (codes +-127 / +-64 aligned with the
+    sign of power-of-two activations) while the scaled result is small: the matmul of integer payloads must
+    be formed in float32 whatever the dtype of the activations"""
+    import optimum.quanto as q
+    F = rng.choice(["f16", "f16", "bf16", "f32"])
+    dt = fmts()[F][0]
+    inF = rng.choice([33, 100, 128, 160])
+    outF = rng.choice([1, 3, 8])
+    rows = rng.choice([1, 3, 17])
+    c = rng.choice([4.0, 8.0])
+    sx = torch.randint(0, 2, [rows, inF], generator=g).float() * 2 - 1
+    x = (sx * c).to(dt)
+    mag = torch.tensor(rng.choice([127, 127, 101])).to(torch.int8)
+    sw = torch.randint(0, 2, [outF, 1], generator=g).float() * 2 - 1
+    wdata = (sx[0:1].expand(outF, inF) * sw * float(mag)).to(torch.int8)      # aligned with the first row of x
+    wscale = torch.full((outF, 1), 2.0 ** -rng.choice([8, 10, 12])).to(dt)
+    w = mk_qbytes(q.qint8, 0, wdata, wscale)
+    return F, x, w, None, "float"
+
+
 def payload_of(x):
     return PAY[x._data.dtype] if oc.is_qb(x) else PAY[x.dtype]
 
@@ -151,8 +172,8 @@ def run(ctx):
     n_exact = 300 if not ctx.thorough else 3000
     lines, expect, meta = [], [], []
     rlines, rexpect = [], []
-    for _ in range(n_exact):
-        F, x, w, bias, akind = exact_case(ctx, rng, g)
+    for ci in range(n_exact):
+        F, x, w, bias, akind = exact_case(ctx, rng, g) if ci % 6 else big_accumulator_case(ctx, rng, g)
         dt = fmts()[F][0]
         rows = x.numel() // x.shape[-1]
         cfg = f"{payload_of(x)} {payload_of(w)} {rows} {x.shape[-1]} {w.shape[0]} 1"
